@@ -165,6 +165,8 @@ func (s *vSim) nodes() []*node {
 			q = append(q, ch)
 		}
 	}
+	// map iteration order must not leak into the generator's choices
+	sort.Slice(out, func(i, j int) bool { return out[i].dn() < out[j].dn() })
 	return out
 }
 
@@ -208,11 +210,12 @@ func (s *vSim) dump() string {
 	nw := s.reqs
 	s.reqs = nil
 	s.mu.Unlock()
+	// arrival order depends on goroutine scheduling: canonicalise
+	sort.SliceStable(nw, func(i, j int) bool { return vReqStr(nw[i]) < vReqStr(nw[j]) })
 	rs := make([]string, len(nw))
 	for i, r := range nw {
 		rs[i] = vReqStr(r)
 	}
-	sort.Strings(rs)
 	s.pend = append(s.pend, nw...)
 	nws := "-"
 	if len(rs) > 0 {
